@@ -298,7 +298,13 @@ def exec_loop(ctx, st, env, cond):
         body_terms = tuple((n, be.get(n, ("undef", n))) for n in body_assigned)
     else:
         body_terms = ()
-    inits = tuple((n, env.get(n, ("undef", n))) for n in body_assigned)
+    # only live-in variables (whose pre-loop value is read in the body) carry an
+    # initial value; leftovers of earlier loops with the same name are dead
+    used = set()
+    for x in T.walk(("probe", header, body_terms) + tuple(o.value for o in outs if o.value is not None)):
+        if isinstance(x, tuple) and len(x) == 3 and x[0] == "lv" and x[1] == lid:
+            used.add(x[2])
+    inits = tuple((n, env.get(n, ("undef", n))) for n in body_assigned if n in used)
     loop_term = ("loop", lid, header, inits, body_terms)
     for n in body_assigned:
         res = ("loopout", n, loop_term)
@@ -854,3 +860,47 @@ def inline_closure(ctx, fn, args, kws, outer_env):
     if t is None:
         return T.NONE
     return t
+
+
+def canon_loops(t):
+    """alpha-normalise loops: identifiers renumbered in order of first appearance,
+    loop-carried variable names replaced by their position in the loop body, loop
+    targets by order of appearance - two copies of one loop nest compare equal."""
+    lids = {}
+    vnames = {}
+    tnames = {}
+
+    def lid_of(i):
+        if i not in lids:
+            lids[i] = len(lids) + 1
+        return lids[i]
+
+    def rec(x):
+        if not isinstance(x, tuple) or not x:
+            return x
+        h = x[0]
+        if h == "loop" and len(x) == 5:
+            l = lid_of(x[1])
+            for k, (n, _) in enumerate(x[4]):
+                vnames.setdefault((x[1], n), "v%d" % k)
+            header = rec(x[2])
+            inits = tuple((vnames.get((x[1], n), n), rec(v)) for n, v in x[3])
+            body = tuple((vnames.get((x[1], n), n), rec(v)) for n, v in x[4])
+            return ("loop", l, header, inits, body)
+        if h == "lv" and len(x) == 3:
+            return ("lv", lid_of(x[1]), vnames.get((x[1], x[2]), x[2]))
+        if h == "lt" and len(x) == 3:
+            k = (x[1], x[2])
+            if k not in tnames:
+                tnames[k] = "t%d" % sum(1 for kk in tnames if kk[0] == x[1])
+            return ("lt", lid_of(x[1]), tnames[k])
+        if h == "loopout" and len(x) == 3 and isinstance(x[2], tuple) and x[2] and x[2][0] == "loop":
+            inner = rec(x[2])
+            lid = x[2][1]
+            return ("loopout", vnames.get((lid, x[1]), tnames.get((lid, x[1]), x[1])), inner)
+        if h == "listcomp" and len(x) == 4:
+            return ("listcomp", lid_of(x[1])) + tuple(rec(y) for y in x[2:])
+        if isinstance(h, str):
+            return (h,) + tuple(rec(y) for y in x[1:])
+        return tuple(rec(y) for y in x)
+    return rec(t)
